@@ -1251,7 +1251,7 @@ theorem C03_op_total_wf_replay_all_partial (S : Segmenter) (U : UData) (op : Op)
     `insert_str(0, "é")` → cursor 1 lies inside the inserted 2-byte character. -/
 theorem C03_insertStr_counterexample :
     ∃ lb lb' r ns, WF lb ∧ Op.argsValid lb (.insertStr 0 ['é']) = true ∧
-      Op.run charSeg ⟨fun _ => false, fun _ => false, fun c => [c], fun c => [c], fun t => t.length⟩
+      Op.run charSeg ⟨fun _ => false, fun _ => false, fun c => [c], fun c => [c], fun t => t.length, fun _ => 1⟩
         (.insertStr 0 ['é']) lb = .ok (r, lb', ns) ∧ ¬ WF lb' := by
   refine ⟨⟨['a', 'é'], 1, 16, false⟩, ⟨['é', 'a', 'é'], 1, 16, false⟩, .bool false, [.insStr 0 ['é']], ?_, ?_, ?_, ?_⟩
   · exact ⟨['a'], ['é'], rfl, by decide⟩
